@@ -31,15 +31,17 @@ Proof. exact bad_item_real_noop. Qed.
 Print Assumptions C06_bad_item_real_noop.
 
 (* ---- structural facts extracted from the source by T1: order of the steps in the code ---- *)
-From BV Require Import Gen.Tables Proofs.StructureFacts.
+From BV Require Import Gen.Tables.
 Local Open Scope N_scope.
-Theorem C06_repo_order_cli__update :
-  ORDER_CLI__UPDATE = [
-  [118;99;115;46;103;101;116;95;118;99;115;95;97;112;105] (* vcs.get_vcs_api *);
-  [118;99;115;46;97;115;115;101;114;116;95;110;111;116;95;100;105;114;116;121] (* vcs.assert_not_dirty *);
-  [118;50;114;101;119;114;105;116;101;46;114;101;119;114;105;116;101;95;102;105;108;101;115] (* v2rewrite.rewrite_files *);
-  [118;49;114;101;119;114;105;116;101;46;114;101;119;114;105;116;101;95;102;105;108;101;115] (* v1rewrite.rewrite_files *);
-  [118;99;115;46;99;111;109;109;105;116] (* vcs.commit *)
-  ].
-Proof. exact repo_order_cli__update. Qed.
-Print Assumptions C06_repo_order_cli__update.
+
+(* ---- call orders extracted from the source by T1: the steps this property rests on ---- *)
+From Coq Require Import Strings.String.
+From BV Require Import Lib.StrLit Gen.Tables Proofs.OrderC06.
+Local Open Scope string_scope.
+
+(* in cli._update files are rewritten after the dirty check and before any VCS write *)
+Theorem C06_repo_order__update :
+  restrict (lits ["vcs.assert_not_dirty"; "v2rewrite.rewrite_files"; "v1rewrite.rewrite_files"; "vcs.commit"]) ORDER_CLI__UPDATE
+  = lits ["vcs.assert_not_dirty"; "v2rewrite.rewrite_files"; "v1rewrite.rewrite_files"; "vcs.commit"].
+Proof. exact c06_order__update. Qed.
+Print Assumptions C06_repo_order__update.
